@@ -3,8 +3,12 @@
 use crate::gen::{self, GenCfg};
 use crate::run::*;
 
+pub mod c02;
 pub mod c03;
 pub mod c04;
+pub mod c08;
+pub mod c12;
+pub mod c20;
 
 pub struct Prepared {
     pub bytes: Vec<u8>,
@@ -68,7 +72,7 @@ pub struct PropDef {
 }
 
 pub fn all() -> Vec<PropDef> {
-    vec![c03::def(), c04::def()]
+    vec![c02::def(), c03::def(), c04::def(), c08::def(), c12::def(), c20::def()]
 }
 
 pub fn get(id: &str) -> Option<PropDef> {
